@@ -9,7 +9,8 @@
 (*     every ordered pair of calls (the second one on any object alive then, the result of the   *)
 (*     first included; the lists are the same objects in both), and every                         *)
 (*     "call ; the caller edits an object the call touched (operand, result, a list it was       *)
-(*     given) ; the same call again on the operand or on the result".  Shape "free" = any steps  *)
+(*     given) ; the same call again on the operand or on the result" ("call ; edit of the result" *)
+(*     is a history of its own: the probe for a result that shares objects with the operand).  Shape "free" = any steps  *)
 (*     (TLC simulation of longer sessions).  Seeds flagged dup (an explicit order that lists a   *)
 (*     value twice) get calls with explicit value orders only.                                   *)
 EXTENDS OrderSess, Json
@@ -30,8 +31,8 @@ Heap(t1, t2, o1, o2, x) == [tabs |-> <<t1, t2>>, lsts |-> <<o1, o2, x>>, role |-
 I(k) == VInt(k)
 AllSeeds ==
   { [name |-> "num", dup |-> 0,          \* numbers only (Python's own order never raises), a tie between an int and the equal float
-     S |-> Heap(Tab(<<I(2), I(1), VFlt(1, 1)>>, <<I(1), I(2), I(1)>>), TabB(<<I(2), I(1)>>),
-                <<I(2), I(1)>>, <<I(1), I(3)>>, <<I(2), VFlt(1, 1), I(1)>>)],
+     S |-> Heap(Tab(<<I(2), I(1), VFlt(1, 1)>>, <<I(1), I(2), I(1)>>), TabB(<<I(1), I(2)>>),      \* the second table and the value list
+                <<I(2), I(1)>>, <<I(1), I(3)>>, <<I(1), VFlt(1, 1), I(2)>>)],      \* are sorted ALREADY (where a shortcut would hand back the operand)
     [name |-> "nan", dup |-> 0,          \* NaN objects among the keys and in an explicit order
      S |-> Heap(Tab(<<N1, I(2), I(1)>>, <<I(2), N2, I(1)>>), TabB(<<N1, I(1), I(2)>>),
                 <<N1, I(1)>>, <<I(2), N2>>, <<I(2), N1, I(1)>>)],
@@ -103,6 +104,9 @@ EditsBite == ~(n = 3 /\ IsEdit(hist[2]) /\ hist[1].op = "sort" /\ last.src = Len
 
 \* ---- (2) the generator -------------------------------------------------------------------------------
 Emit == PrintT(ToJson([kind |-> "session", seed |-> seed.name, dup |-> seed.dup, init |-> S0, hist |-> hist, model |-> S]))
-ShouldEmit == IF Shape = "free" THEN n = MaxSteps + 1 ELSE n > 0 /\ n <= MaxSteps /\ IsCall(last)
+\* (focused: a history ends with a call, or with the caller's edit of the RESULT of the call before it - the probe for a result
+\*  that shares objects with the operand: the edit must change the edited object only)
+EditsResult == n = 2 /\ IsEdit(last) /\ (IF last.op = "setcol" THEN last.src = Len(S0.tabs) + 1 ELSE hist[1].op = "listsort" /\ last.lst = Len(S0.lsts) + 1)
+ShouldEmit == IF Shape = "free" THEN n = MaxSteps + 1 ELSE n > 0 /\ n <= MaxSteps /\ (IsCall(last) \/ EditsResult)
 GenEmit == (Hist /\ ShouldEmit) => Emit
 =============================================================================
